@@ -302,6 +302,33 @@ def u1_u3(prog: Program, chk: Check) -> None:
             raise AnalysisError(f"U1: rounding sites vanished in {q}")
 
 
+def u1_counts(prog: Program, chk: Check, tf: "TimeForms") -> None:
+    """Step counts derived from an end time use (END - START)/DT."""
+    want = (Poly.sym("END") - START).div(Poly.sym("DT"))
+    for q in ("tempo:Tempo._get_num_step", "tempo:MeanFieldTempo._get_num_step",
+              "pt_tempo:PtTempo.__init__"):
+        u = prog.unit(q)
+        du = tf.du(u)
+        hits = 0
+        for x in walk_local(u.node):
+            if isinstance(x, ast.BinOp) and isinstance(x.op, ast.Div) and \
+                    roles.role_of(x.right) == "DT" and \
+                    any(roles.role_of(y) == "END" for y in ast.walk(x.left)):
+                hits += 1
+
+                def leaf(y):
+                    r = roles.role_of(y)
+                    if r in ("START", "DT", "END"):
+                        return Poly.sym(r)
+                    return None
+                f = form_at(du, du.node_of(x), x, leaf)
+                chk.add("U1", u, f"step count from {norm(x)}", f == want,
+                        f"form {f}" if f == want else
+                        f"the number of steps is derived from {f}, not (END - START)/DT", x)
+        if hits != 1:
+            raise AnalysisError(f"U1: end-time quotient not found once in {q}")
+
+
 def u2(prog: Program, chk: Check) -> None:
     chk.rule("U2", "START plumbing: a start-time value is bound to a start-time parameter at "
              "every package call, and a caller that owns a start time forwards it to callees "
@@ -326,4 +353,5 @@ def run(prog: Program, chk: Check) -> None:
     chk.extra["u3_exempt"] = U3_EXEMPT
     chk.extra["pass_through"] = PASS_THROUGH
     u1_u3(prog, chk)
+    u1_counts(prog, chk, TimeForms(prog))
     u2(prog, chk)
